@@ -14,6 +14,7 @@ use linfa::traits::*;
 use linfa::{Dataset, DatasetBase};
 use ndarray::{Array1, Array2, Axis};
 use rand::Rng as _;
+use rand::SeedableRng;
 use serde_json::json;
 
 fn batches(rng: &mut Rng, n: usize) -> Vec<(String, Vec<usize>)> {
@@ -99,6 +100,10 @@ fn check_subject(c: &mut Case, s: &dyn Subject, thorough: bool) -> Outcome {
                 };
                 evals += 1;
                 ensure!(pr.rows.len() == idx.len(), "C03/length/outputs-vs-rows", {"case": desc, "outputs": pr.rows.len()});
+                // the target array has one entry along axis 0 per row and the width of a single
+                // prediction along the others - also when the batch is empty
+                let want_shape: Vec<usize> = if pr.shape.len() == 1 { vec![idx.len()] } else { vec![idx.len(), width] };
+                ensure!(pr.shape == want_shape, "C03/length/target-shape", {"case": desc, "shape": pr.shape, "expected": want_shape});
                 if form == Form::Inplace {
                     ensure!(pr.records_ok, "C03/inplace/target-buffer-not-overwritten", {"case": desc});
                 }
@@ -494,6 +499,75 @@ fn check_svm_single_observation(c: &mut Case) -> Outcome {
     held(ties > 0, format!("svm-single {}", c.idx))
 }
 
+/// k-means with many centroids on an integer lattice, queried at points that are exactly
+/// equidistant from two or four centroids: whichever centroid the tie goes to, it must be the same
+/// one for the row alone, in a one-row batch, in a small batch and in a batch larger than the
+/// number of centroids (an implementation may answer large batches through a different search
+/// structure).
+fn check_kmeans_lattice_ties(c: &mut Case) -> Outcome {
+    use linfa_clustering::{KMeans, KMeansInit};
+    use linfa_nn::distance::{L1Dist, L2Dist};
+    let side = c.rng.gen_range(4..=6usize);
+    let k = side * side;
+    let lattice = Array2::from_shape_fn((k, 2), |(i, j)| if j == 0 { (i / side) as f64 } else { (i % side) as f64 });
+    // every lattice point three times: the centroids stay where they are
+    let data = Array2::from_shape_fn((3 * k, 2), |(i, j)| lattice[[i % k, j]]);
+    let l1 = c.rng.gen_bool(0.3);
+    c.note("side", json!(side));
+    c.note("metric", json!(if l1 { "L1" } else { "L2" }));
+    // queries: edge midpoints (2-way ties), cell centres (4-way ties), lattice points, generic points
+    let nq = 3 * k;
+    let q = Array2::from_shape_fn((nq, 2), |(i, j)| {
+        let (a, b) = (((i * 7) / side) % (side - 1), (i * 7) % (side - 1));
+        let base = if j == 0 { a as f64 } else { b as f64 };
+        match i % 4 {
+            0 => base + if j == 0 { 0.5 } else { 0.0 },
+            1 => base + 0.5,
+            2 => base,
+            _ => base + if j == 0 { 0.25 } else { 0.625 },
+        }
+    });
+    macro_rules! go {
+        ($dist:expr) => {{
+            let fit = guarded(|| {
+                KMeans::params_with(k, rand_xoshiro::Xoshiro256Plus::seed_from_u64(1), $dist)
+                    .init_method(KMeansInit::Precomputed(lattice.clone()))
+                    .n_runs(1)
+                    .max_n_iterations(3)
+                    .fit(&DatasetBase::from(data.clone()))
+            });
+            let model = match fit {
+                Ok(Ok(m)) => m,
+                Ok(Err(e)) => return inconclusive(format!("k-means fit: {e}")),
+                Err(p) => return inconclusive(format!("k-means fit panicked: {p}")),
+            };
+            if model.centroids() != &lattice {
+                return inconclusive("centroids moved off the lattice");
+            }
+            let big: Array1<usize> = model.predict(&q);
+            let mut tied = 0u64;
+            for i in 0..nq {
+                let row = q.row(i);
+                let alone: usize = model.predict(&row);
+                let one_row: Array1<usize> = model.predict(&q.slice(ndarray::s![i..i + 1, ..]));
+                let lo = i.saturating_sub(3);
+                let small: Array1<usize> = model.predict(&q.slice(ndarray::s![lo..i + 1, ..]));
+                if i % 4 < 2 {
+                    tied += 1;
+                }
+                ensure!(alone == big[i] && one_row[0] == big[i] && small[i - lo] == big[i],
+                    "C03/rowwise/label-depends-on-batch-composition",
+                    {"model": "kmeans-lattice", "centroids": k, "row": row.to_vec(), "batch_of_all": big[i], "alone_1d": alone,
+                     "one_row_batch": one_row[0], "batch_of_up_to_four": small[i - lo]});
+            }
+            c.count_n("kmeans-queries-equidistant-from-several-centroids", tied);
+        }};
+    }
+    if l1 { go!(L1Dist) } else { go!(L2Dist) }
+    c.evals = (3 * nq + 1) as u64;
+    held(true, format!("kmeans-lattice side={side} l1={l1}"))
+}
+
 pub fn run(ctx: &Ctx) {
     ctx.set_rule(
         "every predictor family in the zoo x fitted instances (seeds) x batches {empty, single, all, reversed, \
@@ -521,6 +595,7 @@ pub fn run(ctx: &Ctx) {
     ctx.family("multi-target-wrapper", ctx.tier.pick(60, 600), check_multi_target);
     ctx.family("multi-class-wrapper", ctx.tier.pick(200, 3000), check_multi_class);
     ctx.family("platt-wrapper", ctx.tier.pick(60, 600), check_platt);
+    ctx.family("kmeans-lattice-ties", ctx.tier.pick(12, 60), check_kmeans_lattice_ties);
     ctx.family("svm-single-observation", ctx.tier.pick(150, 1500), check_svm_single_observation);
     let _ = Axis(0);
 }
